@@ -2,10 +2,15 @@
 
 Theorems: coq/C12/Properties_C12.v (dispatch through the T::m function table equals the impl registered
 for (interface, dynamic type) for every registration order; rebinding; self copy-in / write-back for
-every receiver form; impl-static key injectivity, separation and persistence; no-impl rejection; the
-pinned defects as `_refuted` theorems).
+every receiver form, in main and inside method bodies; the impl-context stack (enter / exit) restores the
+caller's context after calls nested to ANY depth and every body keeps resolving its statics in the pair that
+declares it; impl-static key injectivity, separation (closed type sets) and persistence; no-impl rejection;
+the pinned defects as `_refuted` theorems).
 Tie: generated programs (k<=4 interfaces x n<=4 types incl. typedef'd primitives, shared method / field /
-static names, every receiver form, random histories of binding / mutating / observing operations) are
+static names, int and void methods, every receiver form, method bodies that declare objects of other types and
+call their methods through variable / interface copy / pointer / array element / helper-function parameter /
+self, call chains 1-5+ deep across different (interface, type) pairs with the statics touched before and after
+each nested call, guarded recursion, random histories of binding / mutating / observing operations) are
 printed as Cb source and run on /repo's `main`; the same program is run by the extracted Coq model
 (bin/c12_model); stdout lines and the error class must agree.  Each program is also re-run with its
 impl blocks permuted (registration-order independence).
@@ -21,23 +26,29 @@ PROP = "C12"
 LEVEL = "proof"
 META = {
     "category": "proof",
-    "technique": "Coq proofs about a Gallina model of impl registration, T::m dispatch, self copy-in/write-back and the impl-static "
-                 "namespace + extracted-model differential run of generated interface programs against main",
+    "technique": "Coq proofs about a Gallina model of impl registration, T::m dispatch, self copy-in/write-back, the impl-context stack "
+                 "and the impl-static namespace + extracted-model differential run of generated interface programs against main",
     "text": "Machine-checked theorems about a hand-written model of register_impl_definition / find_impl_for_struct / "
-            "assign_interface_view / the method-call path of call_impl.cpp / the impl-static namespace of static.cpp: for every "
-            "conflict-free impl list and every registration order the body found for a receiver of dynamic type T is the one "
-            "registered for (interface, T); re-binding an interface variable switches the impl; self is the receiver's current "
-            "payload and its writes are in the receiver after the call for variable, interface-copy, parameter, pointer and "
-            "array-element receivers (nothing else changes); impl-static keys are injective, a call touches only the statics of "
-            "the receiver's (interface, type) pair, statics are never lost; binding a type without an impl is rejected. The defects "
-            "still in the code (a method of another interface callable through an interface variable; writes of a nested self.m() "
-            "lost) are `_refuted` theorems and known findings; the four defects repaired by ffeef7f / 3be9fd7 / 5e201e9 / 7c216d9 "
-            "are now positive laws and main-stream inputs. The model is tied to the code on every run by executing generated programs on main and on the extracted model.",
-    "note": "Trusted: Coq 8.16.1 kernel (vm_compute for the refutation witnesses), no axioms (Print Assumptions: closed); extraction "
+            "assign_interface_view / the method-call path of call_impl.cpp / enter_impl_context + exit_impl_context and the "
+            "impl-static namespace of static.cpp: for every conflict-free impl list and every registration order the body found for a "
+            "receiver of dynamic type T is the one registered for (interface, T); re-binding an interface variable switches the impl; "
+            "self is the receiver's current payload and its writes are in the receiver after the call for variable, interface-copy, "
+            "parameter, pointer and array-element receivers, in main and inside method bodies (nothing else changes); calls nest to "
+            "any depth (fuel-indexed semantics, every theorem for every fuel): exit after enter restores the impl context and the "
+            "saved stack, every well-nested enter/exit history does, so after a call nested arbitrarily deep through other pairs or "
+            "recursion a body still resolves its statics in the pair that declares it; impl-static keys are injective, a call "
+            "touches only statics of types in the closed set of types its bodies can reach, a call-free method only its own pair's, "
+            "statics are never lost; binding a type without an impl is rejected. The defects still in the code (a method of "
+            "another interface callable through an interface variable; writes of a nested int-returning self.m() lost) are "
+            "`_refuted` theorems and known findings; three further defects found on nested calls (a void call on another object of "
+            "the enclosing self's type overwrites that self; a callee's local shadows the caller's receiver variable; struct-array "
+            "locals of recursive frames alias) are known findings avoided by the generator. The model is tied to the code on every "
+            "run by executing generated programs on main and on the extracted model.",
+    "note": "Trusted: Coq 8.16.1 kernel (vm_compute for the witnesses), no axioms (Print Assumptions: closed); extraction "
             "via ExtrOcamlBasic+ExtrOcamlString; the model is hand-written and abstracts a struct value to one field list, all "
-            "values are int, method bodies are straight-line with one level of nested self.m() calls; deeper nesting, calls on "
-            "parameters inside bodies, interface variables mixing struct and primitive payloads, references and generic impls are "
-            "not modelled (tested by fixed replays only).",
+            "values are int, every method is `int|void m(int d)`; methods with interface- / struct- / pointer-typed parameters, "
+            "interface variables mixing struct and primitive payloads, references and generic impls are not modelled (tested by "
+            "fixed source replays only).",
 }
 
 POOL_M = ["m0", "m1", "m2", "m3", "m4", "m5"]
@@ -82,38 +93,50 @@ def expr_uses_static(e):
     return e[0] == "t" or (e[0] in "+-*" and (expr_uses_static(e[1]) or expr_uses_static(e[2])))
 
 
-def stmt_cb(s, k=0):
+def m_void(m):
+    return bool(m.get("void"))
+
+
+def m_locals(m):
+    return m.get("locals", [])
+
+
+def stmt_uses_static(s):
+    if s[0] == "G":
+        return expr_uses_static(s[1]) or stmt_uses_static(s[2])
     if s[0] == "C":
-        return 'int r%d = self.%s(%s); println("%s", r%d);' % (k, s[2], expr_cb(s[3]), s[1], k)
-    if s[0] == "F":
-        return "self.%s = %s;" % (s[1], expr_cb(s[2]))
+        return expr_uses_static(s[3])
     if s[0] == "S":
-        return "%s = %s;" % (s[1], expr_cb(s[2]))
-    return "println(%s);" % ", ".join(['"%s"' % s[1]] + [expr_cb(x) for x in s[2]])
-
-
-def stmt_tok(s):
-    if s[0] == "C":
-        return ["C", s[1], s[2]] + expr_tok(s[3])
-    if s[0] in ("F", "S"):
-        return [s[0], s[1]] + expr_tok(s[2])
-    out = ["P", s[1], str(len(s[2]))]
-    for x in s[2]:
-        out += expr_tok(x)
-    return out
+        return True
+    if s[0] == "F":
+        return expr_uses_static(s[2])
+    if s[0] == "P":
+        return any(expr_uses_static(x) for x in s[2])
+    return False
 
 
 def method_uses_statics(m):
-    for s in m["body"]:
-        if s[0] == "C" and expr_uses_static(s[3]):
-            return True
-        if s[0] == "S":
-            return True
-        if s[0] == "F" and expr_uses_static(s[2]):
-            return True
-        if s[0] == "P" and any(expr_uses_static(x) for x in s[2]):
-            return True
-    return expr_uses_static(m["ret"])
+    return any(stmt_uses_static(s) for s in m["body"]) or (not m_void(m) and expr_uses_static(m["ret"]))
+
+
+class Info:
+    """static facts the printers need: which (type, method) / (interface, method) is void"""
+
+    def __init__(self, p):
+        self.types = {t["name"]: t for t in p["types"]}
+        self.ifaces = {i: ms for i, ms in p["ifaces"]}
+        self.tm, self.im = {}, {}
+        for d in p["impls"]:
+            for m in d["methods"]:
+                self.tm.setdefault((d["type"], m["name"]), m)
+                self.im[(d["iface"], m["name"])] = self.im.get((d["iface"], m["name"]), False) or m_void(m)
+
+    def void_t(self, t, m):
+        mm = self.tm.get((t, m))
+        return bool(mm is not None and m_void(mm))
+
+    def void_i(self, i, m):
+        return bool(self.im.get((i, m)))
 
 
 # ------------------------------------------------------------------ printers
@@ -121,17 +144,6 @@ def type_decl_cb(t):
     if t["kind"] == "prim":
         return "typedef int %s;" % t["name"]
     return "struct %s { %s };" % (t["name"], " ".join("int %s;" % f for f in t["fields"]))
-
-
-def impl_cb(d):
-    out = ["impl %s for %s {" % (d["iface"], d["type"])]
-    for n, z in d["statics"]:
-        out.append("  static int %s = %d;" % (n, z))
-    for m in d["methods"]:
-        body = " ".join(stmt_cb(s, k) for k, s in enumerate(m["body"]))
-        out.append("  int %s(int d) { %s return %s; }" % (m["name"], body, expr_cb(m["ret"])))
-    out.append("};")
-    return "\n".join(out)
 
 
 def recv_cb(r):
@@ -142,81 +154,209 @@ def recv_cb(r):
     return "%s[%d]." % (r[1], r[2])
 
 
-def to_cb(p, impl_order=None):
-    types = {t["name"]: t for t in p["types"]}
-    L = []
-    for i, ms in p["ifaces"]:
-        L.append("interface %s { %s };" % (i, " ".join("int %s(int d);" % m for m in ms)))
-    for t in p["types"]:
-        L.append(type_decl_cb(t))
-    impls = p["impls"] if impl_order is None else [p["impls"][k] for k in impl_order]
-    for d in impls:
-        L.append(impl_cb(d))
-    for h in p["helpers"]:
-        pt = h["iface"] if h["iface"] else h["ptype"]
-        body = " ".join('int r%d = %s.%s(d + %d); println("%s", r%d);' % (k, h["param"], m, c, h["name"], k)
-                        for k, (m, c) in enumerate(h["calls"]))
-        L.append("int %s(%s %s, int d) { %s return 0; }" % (h["name"], pt, h["param"], body))
-    L.append("int main() {")
-    for v in p["vars"]:
-        t = types[v["type"]]
-        if v["kind"] == "conc":
-            if t["kind"] == "prim":
-                L.append("  %s %s = %d;" % (t["name"], v["name"], v["init"]))
-            else:
-                L.append("  %s %s; %s" % (t["name"], v["name"],
-                                          " ".join("%s.%s = %d;" % (v["name"], f, z) for f, z in zip(t["fields"], v["init"]))))
-        else:
-            L.append("  %s[%d] %s;" % (t["name"], len(v["init"]), v["name"]))
-            for k, el in enumerate(v["init"]):
-                L.append("  " + " ".join("%s[%d].%s = %d;" % (v["name"], k, f, z) for f, z in zip(t["fields"], el)))
-    declared = set()
-    vtypes = {v["name"]: v for v in p["vars"]}
-    for o in p["ops"]:
+def decl_cb(info, v):
+    """declaration (+ initialisation) of one concrete variable / array of structs"""
+    t = info.types[v["type"]]
+    if v["kind"] == "conc":
+        if t["kind"] == "prim":
+            return ["%s %s = %d;" % (t["name"], v["name"], v["init"])]
+        return ["%s %s; %s" % (t["name"], v["name"], " ".join("%s.%s = %d;" % (v["name"], f, z) for f, z in zip(t["fields"], v["init"])))]
+    out = ["%s[%d] %s;" % (t["name"], len(v["init"]), v["name"])]
+    for k, el in enumerate(v["init"]):
+        out.append(" ".join("%s[%d].%s = %d;" % (v["name"], k, f, z) for f, z in zip(t["fields"], el)))
+    return out
+
+
+class Scope:
+    """prints the operations acting on one scope (main, or the objects a method body declares)"""
+
+    def __init__(self, info, vars_):
+        self.info = info
+        self.vt = {v["name"]: v for v in vars_}
+        self.declared = set()
+        self.iv = {}        # interface variable -> its interface
+        self.pt = {}        # pointer -> declared pointee type
+
+    def is_void(self, r, m):
+        if r[0] == "V":
+            if r[1] in self.iv:
+                return self.info.void_i(self.iv[r[1]], m)
+            if r[1] in self.vt:
+                return self.info.void_t(self.vt[r[1]]["type"], m)
+            return False
+        if r[0] == "P":
+            pty = self.pt.get(r[1])
+            return self.info.void_i(pty, m) if pty in self.info.ifaces else self.info.void_t(pty, m)
+        return r[1] in self.vt and self.info.void_t(self.vt[r[1]]["type"], m)
+
+    def op(self, o):
         k = o[0]
+        info = self.info
         if k == "b":
             _, x, i, src = o
-            if x in declared:
-                L.append("  %s = %s;" % (x, src))
-            else:
-                declared.add(x)
-                L.append("  %s %s = %s;" % (i, x, src))
-        elif k == "p":
+            self.iv[x] = i
+            if x in self.declared:
+                return "%s = %s;" % (x, src)
+            self.declared.add(x)
+            return "%s %s = %s;" % (i, x, src)
+        if k == "p":
             _, q, x, pty = o
-            if q in declared:
-                L.append("  %s = &%s;" % (q, x))
-            else:
-                declared.add(q)
-                L.append("  %s* %s = &%s;" % (pty, q, x))
-        elif k == "c":
+            self.pt[q] = pty
+            if q in self.declared:
+                return "%s = &%s;" % (q, x)
+            self.declared.add(q)
+            return "%s* %s = &%s;" % (pty, q, x)
+        if k == "c":
             _, r, m, z = o
-            L.append("  println(%s%s(%d));" % (recv_cb(r), m, z))
-        elif k == "v":
+            if self.is_void(r, m):
+                return "%s%s(%d); println(0);" % (recv_cb(r), m, z)
+            return "println(%s%s(%d));" % (recv_cb(r), m, z)
+        if k == "v":
             _, h, src, z = o
-            L.append("  %s(%s, %d);" % (h, src, z))
-        elif k == "s":
+            return "%s(%s, %d);" % (h, src, z)
+        if k == "s":
             _, x, f, z = o
-            if types[vtypes[x]["type"]]["kind"] == "prim":
-                L.append("  %s = %d;" % (x, z))
-            else:
-                L.append("  %s.%s = %d;" % (x, f, z))
-        elif k == "e":
+            if x in self.vt and info.types[self.vt[x]["type"]]["kind"] == "prim":
+                return "%s = %d;" % (x, z)
+            return "%s.%s = %d;" % (x, f, z)
+        if k == "e":
             _, a, i, f, z = o
-            L.append("  %s[%d].%s = %d;" % (a, i, f, z))
-        elif k == "w":
+            return "%s[%d].%s = %d;" % (a, i, f, z)
+        if k == "w":
             x = o[1]
-            v = vtypes[x]
-            t = types[v["type"]]
+            v = self.vt.get(x)
+            if v is None:
+                return 'println("%s", %s);' % (x, x)
+            t = info.types[v["type"]]
             if v["kind"] == "arr":
                 parts = ["%s[%d].%s" % (x, k2, f) for k2 in range(len(v["init"])) for f in t["fields"]]
             elif t["kind"] == "prim":
                 parts = [x]
             else:
                 parts = ["%s.%s" % (x, f) for f in t["fields"]]
-            L.append('  println("%s", %s);' % (x, ", ".join(parts)))
+            return 'println("%s", %s);' % (x, ", ".join(parts))
+        raise ValueError("op " + repr(o))
+
+
+def stmt_cb(info, sc, tname, s, k=0):
+    if s[0] == "C":
+        if info.void_t(tname, s[2]):
+            return 'self.%s(%s); println("%s", 0);' % (s[2], expr_cb(s[3]), s[1])
+        return 'int r%d = self.%s(%s); println("%s", r%d);' % (k, s[2], expr_cb(s[3]), s[1], k)
+    if s[0] == "F":
+        return "self.%s = %s;" % (s[1], expr_cb(s[2]))
+    if s[0] == "S":
+        return "%s = %s;" % (s[1], expr_cb(s[2]))
+    if s[0] == "O":
+        return sc.op(s[1])
+    if s[0] == "G":
+        return "if (%s > 0) { %s }" % (expr_cb(s[1]), stmt_cb(info, sc, tname, s[2], k))
+    return "println(%s);" % ", ".join(['"%s"' % s[1]] + [expr_cb(x) for x in s[2]])
+
+
+def impl_cb(info, d):
+    out = ["impl %s for %s {" % (d["iface"], d["type"])]
+    for n, z in d["statics"]:
+        out.append("  static int %s = %d;" % (n, z))
+    for m in d["methods"]:
+        sc = Scope(info, m_locals(m))
+        parts = []
+        for v in m_locals(m):
+            parts += decl_cb(info, v)
+        parts += [stmt_cb(info, sc, d["type"], s, k) for k, s in enumerate(m["body"])]
+        body = " ".join(parts)
+        if m_void(m):
+            out.append("  void %s(int d) { %s }" % (m["name"], body))
+        else:
+            out.append("  int %s(int d) { %s return %s; }" % (m["name"], body, expr_cb(m["ret"])))
+    out.append("};")
+    return "\n".join(out)
+
+
+def to_cb(p, impl_order=None):
+    info = Info(p)
+    L = []
+    for i, ms in p["ifaces"]:
+        L.append("interface %s { %s };" % (i, " ".join("%s %s(int d);" % ("void" if info.void_i(i, m) else "int", m) for m in ms)))
+    for t in p["types"]:
+        L.append(type_decl_cb(t))
+    impls = p["impls"] if impl_order is None else [p["impls"][k] for k in impl_order]
+    for d in impls:
+        L.append(impl_cb(info, d))
+    for h in p["helpers"]:
+        pt = h["iface"] if h["iface"] else h["ptype"]
+        parts = []
+        for k, (m, c) in enumerate(h["calls"]):
+            void = info.void_i(h["iface"], m) if h["iface"] else info.void_t(h["ptype"], m)
+            if void:
+                parts.append('%s.%s(d + %d); println("%s", 0);' % (h["param"], m, c, h["name"]))
+            else:
+                parts.append('int r%d = %s.%s(d + %d); println("%s", r%d);' % (k, h["param"], m, c, h["name"], k))
+        L.append("int %s(%s %s, int d) { %s return 0; }" % (h["name"], pt, h["param"], " ".join(parts)))
+    L.append("int main() {")
+    sc = Scope(info, p["vars"])
+    for v in p["vars"]:
+        for ln in decl_cb(info, v):
+            L.append("  " + ln)
+    for o in p["ops"]:
+        L.append("  " + sc.op(o))
     L.append("  return 0;")
     L.append("}")
     return "\n".join(L) + "\n"
+
+
+def payload_tok(t, init):
+    if t["kind"] == "prim":
+        return ["P", str(init)]
+    out = ["S", str(len(t["fields"]))]
+    for f, z in zip(t["fields"], init):
+        out += [f, str(z)]
+    return out
+
+
+def var_tok(types, v):
+    t = types[v["type"]]
+    if v["kind"] == "conc":
+        return [v["name"], "C", t["name"]] + payload_tok(t, v["init"])
+    out = [v["name"], "A", t["name"], str(len(v["init"]))]
+    for el in v["init"]:
+        out += payload_tok(t, el)
+    return out
+
+
+def op_tok(o):
+    k = o[0]
+    if k == "b":
+        return ["b", o[1], o[2], o[3]]
+    if k == "p":
+        return ["p", o[1], o[2]]
+    if k == "c":
+        r = o[1]
+        return ["c"] + ([r[0], r[1]] if r[0] != "E" else ["E", r[1], str(r[2])]) + [o[2], str(o[3])]
+    if k == "v":
+        return ["v", o[1], o[2], str(o[3])]
+    if k == "s":
+        return ["s", o[1], o[2], str(o[3])]
+    if k == "e":
+        return ["e", o[1], str(o[2]), o[3], str(o[4])]
+    if k == "w":
+        return ["w", o[1]]
+    raise ValueError("op " + repr(o))
+
+
+def stmt_tok(s):
+    if s[0] == "C":
+        return ["C", s[1], s[2]] + expr_tok(s[3])
+    if s[0] in ("F", "S"):
+        return [s[0], s[1]] + expr_tok(s[2])
+    if s[0] == "O":
+        return ["O"] + op_tok(s[1])
+    if s[0] == "G":
+        return ["G"] + expr_tok(s[1]) + stmt_tok(s[2])
+    out = ["P", s[1], str(len(s[2]))]
+    for x in s[2]:
+        out += expr_tok(x)
+    return out
 
 
 def to_model(p, impl_order=None):
@@ -232,27 +372,16 @@ def to_model(p, impl_order=None):
             T += [n, str(z)]
         T.append(str(len(d["methods"])))
         for m in d["methods"]:
-            T += [m["name"], str(len(m["body"]))]
+            T += [m["name"], "v" if m_void(m) else "i", str(len(m_locals(m)))]
+            for v in m_locals(m):
+                T += var_tok(types, v)
+            T.append(str(len(m["body"])))
             for s in m["body"]:
                 T += stmt_tok(s)
             T += expr_tok(m["ret"])
-
-    def payload(t, init):
-        if t["kind"] == "prim":
-            return ["P", str(init)]
-        out = ["S", str(len(t["fields"]))]
-        for f, z in zip(t["fields"], init):
-            out += [f, str(z)]
-        return out
     T.append(str(len(p["vars"])))
     for v in p["vars"]:
-        t = types[v["type"]]
-        if v["kind"] == "conc":
-            T += [v["name"], "C", t["name"]] + payload(t, v["init"])
-        else:
-            T += [v["name"], "A", t["name"], str(len(v["init"]))]
-            for el in v["init"]:
-                T += payload(t, el)
+        T += var_tok(types, v)
     T.append(str(len(p["helpers"])))
     for h in p["helpers"]:
         T += [h["name"], h["param"], h["iface"] or "-", str(len(h["calls"]))]
@@ -260,22 +389,7 @@ def to_model(p, impl_order=None):
             T += [m, str(c)]
     T.append(str(len(p["ops"])))
     for o in p["ops"]:
-        k = o[0]
-        if k == "b":
-            T += ["b", o[1], o[2], o[3]]
-        elif k == "p":
-            T += ["p", o[1], o[2]]
-        elif k == "c":
-            r = o[1]
-            T += ["c"] + ([r[0], r[1]] if r[0] != "E" else ["E", r[1], str(r[2])]) + [o[2], str(o[3])]
-        elif k == "v":
-            T += ["v", o[1], o[2], str(o[3])]
-        elif k == "s":
-            T += ["s", o[1], o[2], str(o[3])]
-        elif k == "e":
-            T += ["e", o[1], str(o[2]), o[3], str(o[4])]
-        elif k == "w":
-            T += ["w", o[1]]
+        T += op_tok(o)
     return " ".join(T)
 
 
@@ -310,7 +424,7 @@ def gen_update(rng, target_atom, fields, statics, prim):
     return e_add(target_atom, rng.choice(others))
 
 
-def gen_method(rng, name, iface, t, statics, use_statics):
+def gen_method(rng, name, iface, t, statics, use_statics, void=False):
     prim = t["kind"] == "prim"
     fields = [] if prim else t["fields"]
     st = [n for n, _ in statics] if use_statics else []
@@ -329,18 +443,26 @@ def gen_method(rng, name, iface, t, statics, use_statics):
     if rng.random() < 0.9 or not body:
         obs = [["f", f] for f in fields] + [["t", s] for s in st] + ([["s"]] if prim else []) + [["a"]]
         body.insert(rng.randint(0, len(body)) if rng.random() < 0.3 else len(body), ["P", tag, obs])
-    ret = gen_expr(rng, fields, st, prim)
-    return {"name": name, "body": body, "ret": ret}
+    ret = ["c", 0] if void else gen_expr(rng, fields, st, prim)
+    m = {"name": name, "body": body, "ret": ret}
+    if void:
+        m["void"] = True
+    return m
 
 
 def gen_world(rng, small=False):
-    """interfaces, types, impls (method names shared across types and, where legal, across interfaces)"""
+    """interfaces, types, impls (method names shared across types and, where legal, across interfaces), helpers,
+    and the call structure between the methods (add_call_structure)"""
     k = rng.randint(1, 2 if small else 4)
     n = rng.randint(1, 2 if small else 4)
     ifaces = []
+    voids = set()
     for i in range(k):
         ms = sorted(rng.sample(POOL_M, rng.randint(1, 3)))
         ifaces.append(("I%d" % i, ms))
+        for m in ms:
+            if rng.random() < 0.3:
+                voids.add(("I%d" % i, m))
     types = []
     nprim = 0
     for j in range(n):
@@ -365,47 +487,223 @@ def gen_world(rng, small=False):
             meths = []
             for m in ms:
                 use = bool(statics) and rng.random() < 0.65
-                meths.append(gen_method(rng, m, iname, t, statics, use))
+                meths.append(gen_method(rng, m, iname, t, statics, use, (iname, m) in voids))
             rng.shuffle(meths)
             impls.append({"iface": iname, "type": t["name"], "statics": statics, "methods": meths})
-    add_nested_calls(rng, types, impls)
+    helpers = gen_helpers(rng, ifaces, types, impls)
+    add_call_structure(rng, ifaces, types, impls, helpers, small)
     rng.shuffle(impls)
-    return ifaces, types, impls
+    return ifaces, types, impls, helpers
+
+
+def gen_helpers(rng, ifaces, types, impls):
+    helpers = []
+    for i, ms in ifaces:
+        if rng.random() < 0.7:
+            helpers.append({"name": "h" + i, "param": "p" + i, "iface": i, "ptype": None,
+                            "calls": [(rng.choice(ms), rng.randint(0, 5)) for _ in range(rng.randint(1, 3))]})
+    for t in types:
+        ms = [m["name"] for d in impls if d["type"] == t["name"] for m in d["methods"]]
+        if t["kind"] == "struct" and ms and rng.random() < 0.5:
+            helpers.append({"name": "g" + t["name"], "param": "q" + t["name"], "iface": None, "ptype": t["name"],
+                            "calls": [(rng.choice(ms), rng.randint(0, 5)) for _ in range(rng.randint(1, 3))]})
+    return helpers
+
+
+def stmts_flat(body):
+    """every statement of a body, guards opened"""
+    for s in body:
+        while s[0] == "G":
+            s = s[2]
+        yield s
 
 
 def writes_self(m):
-    return any(s[0] == "F" for s in m["body"])
+    return any(s[0] == "F" for s in stmts_flat(m["body"]))
 
 
 def has_calls(m):
-    return any(s[0] == "C" for s in m["body"])
+    return any(s[0] == "C" or (s[0] == "O" and s[1][0] in ("c", "v")) for s in stmts_flat(m["body"]))
 
 
-def add_nested_calls(rng, types, impls):
-    """some methods call  self.m(e)  on call-free methods of the same type (any of its impl blocks: the callee
-    runs under ITS block's statics, the caller's are back afterwards). Avoided (C12-nested-self-writes-lost):
-    callees that assign to self fields."""
-    for t in types:
-        blocks = [d for d in impls if d["type"] == t["name"]]
-        meths = [(d, m) for d in blocks for m in d["methods"]]
-        callers = set()
-        callees = set()
-        for d, m in meths:
-            if id(m) in callees or rng.random() > 0.35:
+def may_change_self(m, tm, tname, seen=()):
+    """the method can end with a self different from the one it started with: a direct member write, or a
+    self-call of a VOID method that can (what an int-returning self-callee writes is dropped by the pinned code)"""
+    if writes_self(m):
+        return True
+    for s in stmts_flat(m["body"]):
+        if s[0] == "C":
+            mm = tm.get((tname, s[2]))
+            if mm is not None and mm is not m and id(mm) not in seen and m_void(mm) and may_change_self(mm, tm, tname, seen + (id(m),)):
+                return True
+    return False
+
+
+def add_call_structure(rng, ifaces, types, impls, helpers, small=False):
+    """Calls between methods, nested up to ~5 deep across different (interface, type) pairs.
+
+    The methods are put in a random order and a method only calls methods after it (plus guarded self-recursion
+    `if (d > 0) { self.m(d - 1) }`), so every program terminates.  A call is made through: self (callee of the
+    same type, any of its impl blocks); an object the body declares - struct / typedef'd-primitive variable,
+    interface copy of it, pointer to the variable or to the copy, array element; a helper function taking the
+    object as interface- or struct-typed parameter.  With a good probability the caller touches its impl statics
+    before AND after the nested call and shows the object afterwards.  About half of the worlds get a `spine`
+    m1 -> m2 -> ... of 3-5 methods wired this way.
+    Avoided: C12-nested-self-writes-lost (an int-returning self-callee that changes self),
+    C12-void-call-clobbers-enclosing-self (a void method called on another object of the enclosing self's type),
+    C12-callee-local-shadows-receiver (object names are unique per method, recursion only through self)."""
+    tdict = {t["name"]: t for t in types}
+    meths = [(d, m) for d in impls for m in d["methods"]]
+    if not meths:
+        return
+    rng.shuffle(meths)
+    uid = {id(m): k for k, (d, m) in enumerate(meths)}
+    tm = {(d["type"], m["name"]): m for d, m in meths}
+    pair_of = {id(m): d for d, m in meths}
+    recursive = set()
+    nrec = 0
+    for d, m in meths:
+        if nrec < 2 and rng.random() < 0.12:
+            recursive.add(id(m))
+            nrec += 1
+    spine = min(len(meths), rng.randint(3, 5)) if (len(meths) >= 3 and rng.random() < (0.3 if small else 0.55)) else 0
+
+    def arg_for(mm):
+        return rng.randint(0, 3) if id(mm) in recursive else rng.randint(-5, 9)
+
+    def helper_ok(h, tname, k):
+        """every method the helper calls on an object of type tname exists and comes later in the order"""
+        for mn, _ in h["calls"]:
+            mm = tm.get((tname, mn))
+            if mm is None or uid[id(mm)] <= k:
+                return False
+            if h["iface"] and mn not in dict(ifaces)[h["iface"]]:
+                return False
+        return True
+
+    # callers are completed from the last method backwards, so a callee's body is final when it is chosen
+    for k in range(len(meths) - 1, -1, -1):
+        d, m = meths[k]
+        t = tdict[d["type"]]
+        prim = t["kind"] == "prim"
+        fields = [] if prim else t["fields"]
+        st = [n for n, _ in d["statics"]]
+        later = meths[k + 1:]
+        locs = {"n": 0, "objs": []}      # objs: (name, type, kind)
+        m.setdefault("locals", [])
+
+        def new_obj(tn, want_arr=False):
+            tt = tdict[tn]
+            olds = [o for o in locs["objs"] if o[1] == tn and (o[2] == "arr") == want_arr]
+            if olds and rng.random() < 0.5:
+                return olds[0]
+            nm = "%s%d_%d" % ("la" if want_arr else "lx", uid[id(m)], locs["n"])
+            locs["n"] += 1
+            if want_arr:
+                init = [[rng.randint(-20, 20) for _ in tt["fields"]] for _ in range(rng.randint(1, 3))]
+                m["locals"].append({"name": nm, "type": tn, "kind": "arr", "init": init})
+                o = (nm, tn, "arr", len(init))
+            else:
+                init = rng.randint(-40, 40) if tt["kind"] == "prim" else [rng.randint(-20, 20) for _ in tt["fields"]]
+                m["locals"].append({"name": nm, "type": tn, "kind": "conc", "init": init})
+                o = (nm, tn, "conc", 0)
+            locs["objs"].append(o)
+            return o
+
+        def make_call(dd, mm):
+            """statements that call mm (declared by block dd) from m"""
+            tn = dd["type"]
+            tt = tdict[tn]
+            same = tn == d["type"]
+            tag = "%s.%s.%s>%s" % (d["iface"], d["type"], m["name"], mm["name"])
+            forms = []
+            if same and (m_void(mm) or not may_change_self(mm, tm, tn)):
+                forms += ["self"] * 5
+            if not (same and m_void(mm)):
+                forms += ["var", "var", "iface", "iface", "pif"]
+                if tt["kind"] == "struct":
+                    forms += ["pvar"]
+                    if id(m) not in recursive:      # avoided: C12-recursive-local-array-aliased
+                        forms += ["elem"]
+                hs = [h for h in helpers if (h["iface"] == dd["iface"] or (h["iface"] is None and h["ptype"] == tn)) and
+                      helper_ok(h, tn, k)]
+                if hs:
+                    forms += ["helper", "helper"]
+            if not forms:
+                return []
+            f = rng.choice(forms)
+            z = arg_for(mm)
+            if f == "self":
+                e = ["c", z] if id(mm) in recursive else gen_expr(rng, fields, st, prim, 1)
+                return [["C", tag, mm["name"], e]]
+            out = []
+            if f == "elem":
+                o = new_obj(tn, True)
+                out.append(["O", ["c", ["E", o[0], rng.randrange(o[3])], mm["name"], z]])
+                if rng.random() < 0.6:
+                    out.append(["O", ["w", o[0]]])
+                return out
+            o = new_obj(tn)
+            if f == "var":
+                out.append(["O", ["c", ["V", o[0]], mm["name"], z]])
+            elif f == "pvar":
+                q = "lq%d_%d" % (uid[id(m)], locs["n"])
+                locs["n"] += 1
+                out += [["O", ["p", q, o[0], tn]], ["O", ["c", ["P", q], mm["name"], z]]]
+            elif f in ("iface", "pif"):
+                w = "lw%d_%d" % (uid[id(m)], locs["n"])
+                locs["n"] += 1
+                out.append(["O", ["b", w, dd["iface"], o[0]]])
+                if f == "iface":
+                    out.append(["O", ["c", ["V", w], mm["name"], z]])
+                else:
+                    q = "lq%d_%d" % (uid[id(m)], locs["n"])
+                    locs["n"] += 1
+                    out += [["O", ["p", q, w, dd["iface"]]], ["O", ["c", ["P", q], mm["name"], z]]]
+                if rng.random() < 0.4:      # a second call on the same copy: it keeps what the first one wrote
+                    out.append(["O", ["c", ["V", w], mm["name"], arg_for(mm)]])
+            else:
+                h = rng.choice(hs)
+                src = o[0]
+                if h["iface"] and rng.random() < 0.4:
+                    w = "lw%d_%d" % (uid[id(m)], locs["n"])
+                    locs["n"] += 1
+                    out.append(["O", ["b", w, h["iface"], o[0]]])
+                    src = w
+                out.append(["O", ["v", h["name"], src, rng.randint(0, 3)]])
+            if rng.random() < 0.6:
+                out.append(["O", ["w", o[0]]])
+            return out
+
+        ncalls = rng.choice([0, 0, 0, 1, 1, 2]) if not (spine and k < spine - 1) else rng.choice([1, 1, 2])
+        targets = []
+        if spine and k < spine - 1:
+            targets.append(meths[k + 1])
+        while len(targets) < ncalls and later:
+            targets.append(rng.choice(later))
+        for dd, mm in targets:
+            stm = make_call(dd, mm)
+            if not stm:
                 continue
-            cands = [(dd, mm) for dd, mm in meths if mm is not m and id(mm) not in callers and not writes_self(mm) and not has_calls(mm)]
-            if not cands:
-                continue
-            prim = t["kind"] == "prim"
-            fields = [] if prim else t["fields"]
-            st = [n for n, _ in d["statics"]]
-            for _ in range(rng.randint(1, 2)):
-                dd, mm = rng.choice(cands)
-                tag = "%s.%s.%s>%s" % (d["iface"], t["name"], m["name"], mm["name"])
-                m["body"].insert(rng.randint(0, len(m["body"])),
-                                 ["C", tag, mm["name"], gen_expr(rng, fields, st, prim, 1)])
-                callees.add(id(mm))
-            callers.add(id(m))
+            pos = rng.randint(0, len(m["body"]))
+            pre, post = [], []
+            if st and rng.random() < 0.7:
+                s1, s2 = rng.choice(st), rng.choice(st)
+                pre = [["S", s1, gen_update(rng, ["t", s1], fields, [], prim)]]
+                post = [["S", s2, gen_update(rng, ["t", s2], fields, [], prim)],
+                        ["P", "%s.%s.%s@" % (d["iface"], d["type"], m["name"]), [["t", x] for x in st] + [["f", x] for x in fields]]]
+            if rng.random() < 0.15 and all(x[0] == "C" or (x[0] == "O" and x[1][0] in ("c", "v", "w")) for x in stm):
+                stm = [["G", rng.choice([["a"], ["-", ["a"], ["c", 2]], ["c", 1]]), x] for x in stm]
+            m["body"][pos:pos] = pre + stm + post
+        if id(m) in recursive:
+            tag = "%s.%s.%s>%s" % (d["iface"], d["type"], m["name"], m["name"])
+            if not may_change_self(m, tm, d["type"]) or m_void(m):
+                pos = rng.randint(0, len(m["body"]))
+                m["body"].insert(pos, ["G", ["a"], ["C", tag, m["name"], ["-", ["a"], ["c", 1]]]])
+            else:
+                recursive.discard(id(m))
+        if not m["locals"]:
+            del m["locals"]
 
 
 class Sim:
@@ -438,7 +736,7 @@ class Sim:
 
 
 def gen_program(rng, nops, small=False, malformed=None):
-    ifaces, types, impls = gen_world(rng, small)
+    ifaces, types, impls, helpers = gen_world(rng, small)
     sim = Sim(ifaces, types, impls)
     vars_ = []
     # concrete variables: 1-2 per type, arrays of some struct types
@@ -454,17 +752,6 @@ def gen_program(rng, nops, small=False, malformed=None):
             vars_.append({"name": nm, "type": t["name"], "kind": "arr",
                           "init": [[rng.randint(-20, 20) for _ in t["fields"]] for _ in range(ln)]})
             sim.arr[nm] = (t["name"], ln)
-    # helpers
-    helpers = []
-    for i, ms in ifaces:
-        if rng.random() < 0.7:
-            helpers.append({"name": "h" + i, "param": "p" + i, "iface": i, "ptype": None,
-                            "calls": [(rng.choice(ms), rng.randint(0, 5)) for _ in range(rng.randint(1, 3))]})
-    for t in types:
-        ms = sim.methods_struct_recv(t["name"])
-        if t["kind"] == "struct" and ms and rng.random() < 0.5:
-            helpers.append({"name": "g" + t["name"], "param": "q" + t["name"], "iface": None, "ptype": t["name"],
-                            "calls": [(rng.choice(ms), rng.randint(0, 5)) for _ in range(rng.randint(1, 3))]})
     ops = []
     niv = 0
     nptr = 0
@@ -649,8 +936,12 @@ def small_world():
         tag = "%s.%s." % (i, t)
         obs = [["f", f] for f in fields]
         return {"iface": i, "type": t, "statics": [("s0", init)], "methods": [
-            {"name": "m0", "body": [["F", "f0", e_add(f0, d)], ["S", "s0", e_add(s0, e_c(k))], ["C", tag + "m0>m3", "m3", e_add(d, s0)],
-                                    ["P", tag + "m0", obs + [s0]]],
+            {"name": "m0", "locals": [{"name": "lt" + t, "type": "T0", "kind": "conc", "init": [2, 3]}],
+             "body": [["F", "f0", e_add(f0, d)], ["S", "s0", e_add(s0, e_c(k))], ["C", tag + "m0>m3", "m3", e_add(d, s0)],
+                      # three deep across pairs: (I0,t).m0 -> (I1,T0).m2 through an interface copy of an own object -> (I0,T0).m1
+                      ["O", ["b", "lw" + t, "I1", "lt" + t]], ["O", ["c", ["V", "lw" + t], "m2", 1]],
+                      ["S", "s0", e_add(s0, e_c(k))], ["O", ["w", "lt" + t]],
+                      ["P", tag + "m0", obs + [s0]]],
              "ret": e_add(f0, s0)},
             {"name": "m1", "body": [["P", tag + "m1", obs + [d]]], "ret": e_mul(f0, e_c(k))},
             {"name": "m3", "body": [["P", tag + "m3", obs + [s0]]], "ret": s0}]}
@@ -745,12 +1036,17 @@ def agree(m, i):
     return m[0] == i[0] and m[1] == i[1]
 
 
+# model answers that put a program outside the modelled domain (dropped, counted)
+OUTSIDE = ("range", "bad", "unmodelled", "fuel")
+
+
 # ------------------------------------------------------------------ property's own oracle (independent, Python)
-def spec_run(p):
+def spec_run(p, stats=None):
     """The property's own reading, independent of the Coq model: dispatch on (interface, dynamic type),
-    self = receiver, writes visible afterwards, one statics cell per (interface, type, name) for the whole
-    run, no-impl rejected. Returns (lines, class). Differs from the pinned code exactly where the known
-    findings are (a method outside the interface is rejected, nested self-call writes stay visible)."""
+    self = receiver (the same object: every write visible at once), one statics cell per (interface, type, name)
+    for the whole run - a method body always reads the cell of the pair that declares it, however deep the call
+    is nested -, no-impl rejected. Returns (lines, class). Differs from the pinned code exactly where the known
+    findings are. `stats` (a dict) receives the measured nesting facts of the run."""
     types = {t["name"]: t for t in p["types"]}
     impl = {}
     seen = []
@@ -769,13 +1065,17 @@ def spec_run(p):
         impl[(d["iface"], d["type"])] = d
     statics = {(d["iface"], d["type"], n): z for d in p["impls"] for n, z in d["statics"]}
     out = []
-    V = {}
-    for v in p["vars"]:
+    st = stats if stats is not None else {}
+    st.update({"max_depth": 0, "max_pairs_on_stack": 0, "static_after_nested_at_depth2plus": 0, "calls": 0,
+               "void_calls": 0, "body_recv": {}, "recursion": 0, "pair_reentered": 0})
+
+    def mkcell(v):
         t = types[v["type"]]
         if v["kind"] == "conc":
-            V[v["name"]] = {"k": "conc", "t": t["name"], "p": v["init"] if t["kind"] == "prim" else dict(zip(t["fields"], v["init"]))}
-        else:
-            V[v["name"]] = {"k": "arr", "t": t["name"], "es": [dict(zip(t["fields"], el)) for el in v["init"]]}
+            return {"k": "conc", "t": t["name"], "p": v["init"] if t["kind"] == "prim" else dict(zip(t["fields"], v["init"]))}
+        return {"k": "arr", "t": t["name"], "es": [dict(zip(t["fields"], el)) for el in v["init"]]}
+
+    mstack = []
 
     class Stop(Exception):
         pass
@@ -804,75 +1104,121 @@ def spec_run(p):
             return hits[0]
         raise Stop("undeffunc")
 
-    def call(cell, m, d):
+    def call(cell, m, d, chain):
+        if len(chain) > 200:
+            raise Stop("fuel")
         via = cell.get("i")
         dd, mm = find_method(cell["t"], m, via)
         pair = (dd["iface"], dd["type"])
-        for s in mm["body"]:
+        chain = chain + [pair]
+        st["calls"] += 1
+        st["void_calls"] += 1 if m_void(mm) else 0
+        st["max_depth"] = max(st["max_depth"], len(chain))
+        st["max_pairs_on_stack"] = max(st["max_pairs_on_stack"], len(set(chain)))
+        if chain.count(pair) > 1:
+            st["pair_reentered"] = 1
+        if mstack.count(id(mm)) >= 1:
+            st["recursion"] = 1
+        mstack.append(id(mm))
+        L = {v["name"]: mkcell(v) for v in m_locals(mm)}
+        nested = [False]
+
+        def ex(s):
+            if s[0] == "G":
+                if ev(s[1], cell, d, pair) > 0:
+                    ex(s[2])
+                return
+            if nested[0] and len(chain) >= 2 and len(set(chain)) >= 2 and stmt_uses_static(s):
+                st["static_after_nested_at_depth2plus"] += 1
             if s[0] == "C":
                 inner = {"k": "conc", "t": cell["t"], "p": cell["p"]}     # the same object: writes stay visible
-                r = call(inner, s[2], ev(s[3], cell, d, pair))
+                r = call(inner, s[2], ev(s[3], cell, d, pair), chain)
                 cell["p"] = inner["p"]
+                nested[0] = True
                 out.append("%s %d" % (s[1], r))
+            elif s[0] == "O":
+                if s[1][0] in ("c", "v"):
+                    if s[1][0] == "c":
+                        kind = {"V": "var", "P": "ptr", "E": "elem"}[s[1][1][0]]
+                        if s[1][1][0] == "V" and L.get(s[1][1][1], {}).get("k") == "iface":
+                            kind = "iface"
+                        st["body_recv"][kind] = st["body_recv"].get(kind, 0) + 1
+                    else:
+                        st["body_recv"]["helper"] = st["body_recv"].get("helper", 0) + 1
+                do_op(L, s[1], chain)
+                if s[1][0] in ("c", "v"):
+                    nested[0] = True
             elif s[0] == "F":
                 cell["p"][s[1]] = ev(s[2], cell, d, pair)
             elif s[0] == "S":
-                statics[(pair[0], pair[1], s[1])] = ev(s[2], cell, d, pair)
+                key = (pair[0], pair[1], s[1])
+                if key not in statics:
+                    raise KeyError(key)
+                statics[key] = ev(s[2], cell, d, pair)
             else:
                 out.append(" ".join([s[1]] + [str(ev(x, cell, d, pair)) for x in s[2]]))
-        return ev(mm["ret"], cell, d, pair)
+        try:
+            for s in mm["body"]:
+                ex(s)
+        finally:
+            mstack.pop()
+        return 0 if m_void(mm) else ev(mm["ret"], cell, d, pair)
 
     def copy_payload(c):
         return dict(c["p"]) if isinstance(c["p"], dict) else c["p"]
 
-    def bind(x, i, src):
+    def bind(V, x, i, src):
         s = V[src]
         if (i, s["t"]) not in impl:
             raise Stop("noimpl")
         V[x] = {"k": "iface", "i": i, "t": s["t"], "p": copy_payload(s)}
     helpers = {h["name"]: h for h in p["helpers"]}
+
+    def do_op(V, o, chain):
+        k = o[0]
+        if k == "b":
+            bind(V, o[1], o[2], o[3])
+        elif k == "p":
+            V[o[1]] = {"k": "ptr", "x": o[2]}
+        elif k == "c":
+            r = o[1]
+            if r[0] == "V":
+                cell = V[r[1]]
+            elif r[0] == "P":
+                cell = V[V[r[1]]["x"]]
+            else:
+                a = V[r[1]]
+                cell = {"k": "conc", "t": a["t"], "p": a["es"][r[2]]}
+            out.append(str(call(cell, o[2], o[3], chain)))
+        elif k == "v":
+            h = helpers[o[1]]
+            if h["iface"]:
+                bind(V, "$p", h["iface"], o[2])
+            else:
+                V["$p"] = {"k": "conc", "t": V[o[2]]["t"], "p": copy_payload(V[o[2]])}
+            for m, c in h["calls"]:
+                out.append("%s %d" % (h["name"], call(V["$p"], m, o[3] + c, chain)))
+            del V["$p"]
+        elif k == "s":
+            if isinstance(V[o[1]]["p"], dict):
+                V[o[1]]["p"][o[2]] = o[3]
+            else:
+                V[o[1]]["p"] = o[3]
+        elif k == "e":
+            V[o[1]]["es"][o[2]][o[3]] = o[4]
+        elif k == "w":
+            v = V[o[1]]
+            if v["k"] == "arr":
+                vals = [z for el in v["es"] for z in el.values()]
+            elif isinstance(v["p"], dict):
+                vals = list(v["p"].values())
+            else:
+                vals = [v["p"]]
+            out.append(" ".join([o[1]] + [str(z) for z in vals]))
+    V = {v["name"]: mkcell(v) for v in p["vars"]}
     try:
         for o in p["ops"]:
-            k = o[0]
-            if k == "b":
-                bind(o[1], o[2], o[3])
-            elif k == "p":
-                V[o[1]] = {"k": "ptr", "x": o[2]}
-            elif k == "c":
-                r = o[1]
-                if r[0] == "V":
-                    cell = V[r[1]]
-                elif r[0] == "P":
-                    cell = V[V[r[1]]["x"]]
-                else:
-                    a = V[r[1]]
-                    cell = {"k": "conc", "t": a["t"], "p": a["es"][r[2]]}
-                out.append(str(call(cell, o[2], o[3])))
-            elif k == "v":
-                h = helpers[o[1]]
-                if h["iface"]:
-                    bind("$p", h["iface"], o[2])
-                else:
-                    V["$p"] = {"k": "conc", "t": V[o[2]]["t"], "p": copy_payload(V[o[2]])}
-                for m, c in h["calls"]:
-                    out.append("%s %d" % (h["name"], call(V["$p"], m, o[3] + c)))
-                del V["$p"]
-            elif k == "s":
-                if isinstance(V[o[1]]["p"], dict):
-                    V[o[1]]["p"][o[2]] = o[3]
-                else:
-                    V[o[1]]["p"] = o[3]
-            elif k == "e":
-                V[o[1]]["es"][o[2]][o[3]] = o[4]
-            elif k == "w":
-                v = V[o[1]]
-                if v["k"] == "arr":
-                    vals = [z for el in v["es"] for z in el.values()]
-                elif isinstance(v["p"], dict):
-                    vals = list(v["p"].values())
-                else:
-                    vals = [v["p"]]
-                out.append(" ".join([o[1]] + [str(z) for z in vals]))
+            do_op(V, o, [])
     except Stop as s:
         return out, str(s)
     except KeyError:
@@ -915,7 +1261,7 @@ def well_scoped(p):
     return True
 
 
-def shrink(p, bad, budget=250):
+def shrink(p, bad, budget=400):
     """greedy deletion of operations, helpers' calls, statements, impls, variables while `bad(p)` holds"""
     p = json.loads(json.dumps(p))
     n = [0]
@@ -946,12 +1292,37 @@ def shrink(p, bad, budget=250):
                     if ok(q):
                         p = q
                         changed = True
+        for di in range(len(p["impls"])):
+            for mi in range(len(p["impls"][di]["methods"])):
+                m = p["impls"][di]["methods"][mi]
+                for k in range(len(m["body"])):          # open a guard
+                    if m["body"][k][0] == "G":
+                        q = json.loads(json.dumps(p))
+                        q["impls"][di]["methods"][mi]["body"][k] = m["body"][k][2]
+                        if ok(q):
+                            p = q
+                            changed = True
+                            m = p["impls"][di]["methods"][mi]
+                for k in range(len(m_locals(m)) - 1, -1, -1):
+                    q = json.loads(json.dumps(p))
+                    del q["impls"][di]["methods"][mi]["locals"][k]
+                    if ok(q):
+                        p = q
+                        changed = True
         for hi in range(len(p["helpers"]) - 1, -1, -1):
             q = json.loads(json.dumps(p))
             del q["helpers"][hi]
             if ok(q):
                 p = q
                 changed = True
+                continue
+            for k in range(len(p["helpers"][hi]["calls"]) - 1, -1, -1):
+                if len(p["helpers"][hi]["calls"]) > 1:
+                    q = json.loads(json.dumps(p))
+                    del q["helpers"][hi]["calls"][k]
+                    if ok(q):
+                        p = q
+                        changed = True
         for di in range(len(p["impls"]) - 1, -1, -1):
             q = json.loads(json.dumps(p))
             del q["impls"][di]
@@ -978,8 +1349,14 @@ def prog_features(p):
     if any(k == "prim" for k in types.values()):
         f.add("prim-type")
     meths = {(d["type"], m["name"]): m for d in p["impls"] for m in d["methods"]}
-    if any(has_calls(m) for m in meths.values()):
+    if any(s[0] == "C" for m in meths.values() for s in stmts_flat(m["body"])):
         f.add("nested-self-call")
+    if any(s[0] == "G" for m in meths.values() for s in m["body"]):
+        f.add("guarded-call")
+    if any(m_locals(m) for m in meths.values()):
+        f.add("method-declares-objects")
+    if any(m_void(m) for m in meths.values()):
+        f.add("void-method")
     if any(m["ret"] == ["s"] for m in meths.values()):
         f.add("return-self")
     vt = {v["name"]: v for v in p["vars"]}
@@ -992,6 +1369,28 @@ def prog_features(p):
                 f.add("statics-through-concrete-receiver")
     if any(d["statics"] for d in p["impls"]):
         f.add("statics")
+    # measured on a run of the property's own oracle: how deep the calls really nest, what they go through
+    st = {}
+    try:
+        spec_run(p, st)
+    except Exception:
+        return f
+    dp = st.get("max_depth", 0)
+    f.add("depth-%s" % (dp if dp < 5 else "5+"))
+    if dp >= 3:
+        f.add("depth>=3")
+    if st.get("max_pairs_on_stack", 0) >= 2:
+        f.add("pairs-on-stack>=2")
+    if st.get("max_pairs_on_stack", 0) >= 3:
+        f.add("pairs-on-stack>=3")
+    if st.get("static_after_nested_at_depth2plus"):
+        f.add("static-touched-after-nested-call-at-depth>=2")
+    if st.get("recursion"):
+        f.add("recursion-executed")
+    if st.get("void_calls"):
+        f.add("void-call-executed")
+    for k in st.get("body_recv", {}):
+        f.add("body-call-through-" + k)
     return f
 
 
@@ -1068,10 +1467,11 @@ def run(rep):
 
     models = run_model(progs)
     # programs outside the modelled domain (value outside int, unmodelled mixing) are dropped, counted
-    keep = [k for k, m in enumerate(models) if m[1] not in ("range", "bad", "unmodelled")]
+    keep = [k for k, m in enumerate(models) if m[1] not in OUTSIDE]
     dropped = len(progs) - len(keep)
-    if any(models[k][1] == "bad" for k in range(len(progs))):
-        rep.notes.append("generator produced %d programs the model calls ill-formed" % sum(1 for m in models if m[1] == "bad"))
+    for cls in ("bad", "fuel"):
+        if any(m[1] == cls for m in models):
+            rep.notes.append("generator produced %d programs the model answers %r on" % (sum(1 for m in models if m[1] == cls), cls))
     progs = [progs[k] for k in keep]
     origin = [origin[k] for k in keep]
     models = [models[k] for k in keep]
@@ -1121,9 +1521,11 @@ def run(rep):
         "disagreements": len(bad) + len(badp),
         "samples": [{"program": to_cb(progs[k]), "model": models[k], "impl": impls[k]} for k in ([0, len(progs) // 2] if progs else [])],
         "exhaustive": True,
-        "exhaustive_space": "fixed world (2 interfaces x 2 types, shared method/field/static names): every sequence of length <= %d "
-                            "over 16 operations (re-binding, calls through variable / copy / pointer / array element / parameter, direct "
-                            "write, pointer re-targeting) between a fixed prefix and an observing suffix (%d programs)" % (exh_len, n_exh),
+        "exhaustive_space": "fixed world (2 interfaces x 2 types, shared method/field/static names, m0 nests three deep across three "
+                            "pairs through an interface copy of an object it declares and touches its static before and after): every "
+                            "sequence of length <= %d over 16 operations (re-binding, calls through variable / copy / pointer / array "
+                            "element / parameter, direct write, pointer re-targeting) between a fixed prefix and an observing suffix "
+                            "(%d programs)" % (exh_len, n_exh),
     })
 
     def contradicts_spec(q, i):
@@ -1132,7 +1534,7 @@ def run(rep):
 
     def bad_fn(q, need_concrete=False):
         (m,) = run_model([q])
-        if m[1] in ("range", "bad", "unmodelled"):
+        if m[1] in OUTSIDE:
             return False
         i = run_impl(impl, q)
         return (not agree(m, i)) and (not need_concrete or contradicts_spec(q, i))
@@ -1177,8 +1579,11 @@ def run(rep):
     rep.assumptions += [
         "the model abstracts a struct value to one field list (Variable::struct_members and the flattened x.f variables are one thing)",
         "all fields, arguments, statics and results are int and stay inside int (programs leaving the range are dropped, counted)",
-        "method bodies are straight-line (assignments to self fields / impl statics, println, self.m(e) on call-free methods, one return)",
-        "deeper nesting, references, generic impls and interface variables mixing struct and primitive payloads are outside the model",
+        "method bodies: assignments to self fields / impl statics, println, self.m(e), operations on objects the body declares (binding, "
+        "pointers, calls through variable / interface copy / pointer / array element, helper calls), `if (e > 0)` guards, one return or "
+        "none (void); every method is `int|void m(int d)`; calls nest to any depth (fuel 64 in the extracted run, never reached)",
+        "methods with interface- / struct- / pointer-typed parameters (fixed source replays only), references, generic impls and "
+        "interface variables mixing struct and primitive payloads are outside the model",
     ]
 
 
